@@ -38,7 +38,9 @@ def cases(draw):
                 out.append(f"{nid};{cid};1;0;{draw(st.sampled_from([0, 1, 24]))};{draw(gen.nice_text)}")
         return out
 
-    old = lines([1, 2, 3], 2)
+    # the state on disk: a small network - or, now and then, a complete save of an EMPTY network (what a
+    # fresh gateway writes first); the stale backup then holds something older that must not come back
+    old = lines([1, 2, 3], 2) if draw(st.integers(0, 3)) else []
     extra = lines([1, 2, 3, 4, 5], 2) + [f"1;255;3;0;11;{draw(gen.nice_text)}", f"1;255;3;0;0;{draw(st.integers(1, 100))}"]
     return {
         "version": draw(st.sampled_from(common.VERSIONS)),
@@ -246,6 +248,13 @@ def _one(args):
 def draw_cases(n, seed_value):
     out = []
     common.run_given(common.Stats(), cases(), out.append, n, seed_value, shrink=False)
+    if out and not any(not c["old"] for c in out):
+        out.append(dict(out[0], old=[]))
+    full = [c for c in out if c["old"]]
+    for ext in ("json", "pickle"):
+        # a non-empty previous state per format (losing it is what a missing fsync shows as)
+        if full and not any(c["ext"] == ext for c in full):
+            out.append(dict(full[0], ext=ext))
     exts = {c["ext"] for c in out}
     for ext in ("json", "pickle"):
         if ext not in exts and out:
@@ -265,7 +274,7 @@ def main(tier):
             check_case(c, run.stats, priors=(c["prior"],), only=c)
         except Violation as v:
             run.stats.violation(v.clause, v.case, f"[regression {os.path.basename(path)}] {v.detail}")
-    n = 3 if tier == "quick" else 40
+    n = 3 if tier == "quick" else 100
     todo = draw_cases(n, common.shard_seed(common.seed(), 0))
     jobs = [(c, prior, j) for c in todo for prior in PRIORS for j in range(PARTS if c["ext"] == "json" else 1)]
     for stats in common.pool_map(_one, jobs):
